@@ -32,7 +32,7 @@ theorem C04_no_recorded_exception : ∀ e ∈ allFunctions, e.2.2.2.2 = [] := by
 def clauseWitnessed (e : String × List Sig × List String × List Tup × List Clause) : Bool :=
   e.2.2.2.2.all fun c => e.2.2.2.1.any fun t => c.has hier t && !(resolve hier e.2.1 t).isUnique
 
-/-- Kept for its name only: with `C04_no_recorded_exception` there is no active clause, so this is a
+/-- NOT in the audited list of Properties/C04.lean (trivially true on the current tables).  Kept for its name only: with `C04_no_recorded_exception` there is no active clause, so this is a
     corollary (it says something only for a table with a recorded clause; the non-vacuous facts are
     `C04_no_recorded_exception` and the regression examples of PartH). -/
 theorem C04_clauses_witnessed : allFunctions.all clauseWitnessed = true := by
